@@ -122,12 +122,12 @@ func stripGenExt(v interface{}) interface{} {
 }
 
 // expanded returns the fully $ref-expanded document (paths, parameters, responses) as a JSON value, definitions dropped.
-func expanded(doc []byte) (interface{}, error) {
+func expanded(doc []byte, base string) (interface{}, error) {
 	var sw spec.Swagger
 	if err := json.Unmarshal(doc, &sw); err != nil {
 		return nil, err
 	}
-	if err := spec.ExpandSpec(&sw, &spec.ExpandOptions{RelativeBase: "", SkipSchemas: false}); err != nil {
+	if err := spec.ExpandSpec(&sw, &spec.ExpandOptions{RelativeBase: base, SkipSchemas: false}); err != nil {
 		return nil, err
 	}
 	b, err := json.Marshal(sw)
@@ -206,11 +206,12 @@ func cmdEmbed(args []string) {
 	}
 	r := rng.New(*seed)
 	type job struct {
-		id     int
-		doc    map[string]interface{}
-		mode   c10mode
-		yaml   bool
-		marks  []string
+		id    int
+		doc   map[string]interface{}
+		mode  c10mode
+		yaml  bool
+		marks []string
+		multi bool // the input is split over several files: a path item and a definition live in sibling documents
 	}
 	// every case: a few random string positions receive a hostile string each
 	ncases := 24
@@ -233,7 +234,12 @@ func cmdEmbed(args []string) {
 				marks = append(marks, p.name+"="+h.class)
 			}
 		}
-		jobs = append(jobs, job{id: i, doc: doc, mode: c10Modes[i%len(c10Modes)], yaml: i%2 == 1, marks: marks})
+		multi := i%4 == 3
+		if multi {
+			doc["paths"].(map[string]interface{})["/remote"] = map[string]interface{}{"$ref": "paths.json#/remote"}
+			doc["definitions"].(map[string]interface{})["Far"] = map[string]interface{}{"$ref": "defs.json#/definitions/Far"}
+		}
+		jobs = append(jobs, job{id: i, doc: doc, mode: c10Modes[i%len(c10Modes)], yaml: i%2 == 1, marks: marks, multi: multi})
 	}
 	var mu sync.Mutex
 	var viols []violation
@@ -255,6 +261,10 @@ func cmdEmbed(args []string) {
 				}
 				input, _ := json.Marshal(j.doc)
 				specPath := filepath.Join(dir, "spec.json")
+				if j.multi {
+					_ = os.WriteFile(filepath.Join(dir, "paths.json"), []byte(`{"remote":{"get":{"operationId":"getRemote","parameters":[{"name":"name","in":"query","type":"string","required":true}],"responses":{"200":{"description":"ok","schema":{"$ref":"defs.json#/definitions/Far"}}}}}}`), 0o644)
+					_ = os.WriteFile(filepath.Join(dir, "defs.json"), []byte(`{"definitions":{"Far":{"type":"object","required":["id"],"properties":{"id":{"type":"integer","format":"int64"},"label":{"type":"string","maxLength":9}}}}}`), 0o644)
+				}
 				if j.yaml {
 					var v interface{}
 					_ = json.Unmarshal(input, &v)
@@ -270,6 +280,7 @@ func cmdEmbed(args []string) {
 				evals++
 				cov["mode:"+j.mode.name]++
 				cov[map[bool]string{true: "input:yaml", false: "input:json"}[j.yaml]]++
+				cov[map[bool]string{true: "input:several-files", false: "input:one-file"}[j.multi]]++
 				for _, m := range j.marks {
 					cov["string:"+m[strings.Index(m, "=")+1:]]++
 				}
@@ -283,7 +294,7 @@ func cmdEmbed(args []string) {
 					continue
 				}
 				vals, srcs, err := embeddedDocs(filepath.Join(dir, "restapi", "embedded_spec.go"))
-				in := map[string]interface{}{"spec": json.RawMessage(input), "mode": j.mode.name, "yaml_input": j.yaml, "strings": j.marks}
+				in := map[string]interface{}{"spec": json.RawMessage(input), "mode": j.mode.name, "yaml_input": j.yaml, "strings": j.marks, "several_files": j.multi}
 				mu.Lock()
 				if err != nil {
 					viols = append(viols, violation{Key: "c10/embedded-unreadable", What: "the embedded documents cannot be evaluated: " + err.Error(), Input: in})
@@ -292,10 +303,13 @@ func cmdEmbed(args []string) {
 						viols = append(viols, violation{Key: "c10/swaggerjson-differs[" + j.mode.name + "]", What: "SwaggerJSON is not JSON-equal to the input spec (" + j.mode.name + " flatten mode)", Input: in,
 							Detail: firstJSONDiff([]byte(vals["SwaggerJSON"]), input)})
 					}
-					ea, e1 := expanded(input)
-					eb, e2 := expanded([]byte(vals["FlatSwaggerJSON"]))
-					if e1 != nil || e2 != nil {
+					// the input resolves its $refs from where it lies; the embedded flat document has only itself at run time
+					ea, e1 := expanded(input, specPath)
+					eb, e2 := expanded([]byte(vals["FlatSwaggerJSON"]), filepath.Join(os.TempDir(), "nowhere", "embedded.json"))
+					if e1 != nil {
 						cov["expand-failed"]++
+					} else if e2 != nil {
+						viols = append(viols, violation{Key: "c10/flat-not-self-contained[" + j.mode.name + "]", What: "the $refs of FlatSwaggerJSON cannot be resolved from the document alone (" + j.mode.name + "): " + e2.Error(), Input: in})
 					} else if !reflect.DeepEqual(ea, eb) {
 						x, _ := json.Marshal(ea)
 						y, _ := json.Marshal(eb)
@@ -362,8 +376,8 @@ func cmdEmbed(args []string) {
 	}
 	rep := map[string]interface{}{
 		"evaluations": evals, "distinct_nontrivial": evals,
-		"rule":       "specs = a fixed document with every free-text position, anonymous inline schemas, nested $refs, allOf and a recursive definition; each case puts 1-4 strings of the classes {backtick, quotes, control, non-ascii, astral, U+2028/9, html, escape-lookalike, CRLF, format verbs} at random string positions, alternates JSON / YAML input and cycles minimal / full / expand flattening; `swagger generate server` is run and restapi/embedded_spec.go is evaluated as the compiler would (go/parser + constant folding). Every case is distinct and non-trivial (at least one hostile string, a flatten mode).",
-		"samples":    samples, "coverage": cov, "violations": viols, "generation_errors": genErrors,
+		"rule":    "specs = a fixed document with every free-text position, anonymous inline schemas, nested $refs, allOf and a recursive definition; each case puts 1-4 strings of the classes {backtick, quotes, control, non-ascii, astral, U+2028/9, html, escape-lookalike, CRLF, format verbs} at random string positions, alternates JSON / YAML input and cycles minimal / full / expand flattening; `swagger generate server` is run and restapi/embedded_spec.go is evaluated as the compiler would (go/parser + constant folding). Every case is distinct and non-trivial (at least one hostile string, a flatten mode).",
+		"samples": samples, "coverage": cov, "violations": viols, "generation_errors": genErrors,
 		"literal_cases": len(litCases), "function_cases": len(fcases), "cases_dir": cdir,
 	}
 	b, _ := json.MarshalIndent(rep, "", " ")
